@@ -148,7 +148,9 @@ class RF24:
             self.flush_tx()
         if not send_only and self._status >> 1 & 7 < 6:
             self.flush_rx()
-        self.write(buf, ask_no_ack)
+        if not self.write(buf, ask_no_ack):
+            self.flush_tx()
+            self.write(buf, ask_no_ack)
         while not self._status & 0x30:
             self.update()
         result = bool(self._status & 0x20)
